@@ -45,18 +45,20 @@ enum Verdict { Bad, Good(String), Outside }
 
 fn pid(s: &str) -> cp::PolicyId { cp::PolicyId::new(s) }
 
-fn policy_verdict(d: &Src) -> Verdict {
+fn policy_verdict(d: &Src, out: &mut Out) -> Verdict {
     let p = match d {
         Src::Cedar(s) => cp::Policy::parse(Some(pid("x")), s).ok(),
         Src::Json(v) => cp::Policy::from_json(Some(pid("x")), v.clone()).ok(),
     };
+    // trusted by the model: the parsers give the policy the id they are handed
+    if let Some(p) = &p { if AsRef::<str>::as_ref(p.id()) != "x" { out.propfail("Policy::parse/from_json does not assign the given id", &format!("{d:?}"), &p.id().to_string()); } }
     match p {
         None => Verdict::Bad,
         Some(p) => match c08::body_sx(AsRef::<ast::Policy>::as_ref(&p).template()) { Some(b) => Verdict::Good(b), None => Verdict::Outside },
     }
 }
 
-fn template_verdict(d: &Src) -> (Verdict, Option<(bool, bool)>) {
+fn template_verdict(d: &Src, out: &mut Out) -> (Verdict, Option<(bool, bool)>) {
     let t = match d {
         Src::Cedar(s) => cp::Template::parse(Some(pid("x")), s).ok(),
         Src::Json(v) => cp::Template::from_json(Some(pid("x")), v.clone()).ok(),
@@ -65,6 +67,9 @@ fn template_verdict(d: &Src) -> (Verdict, Option<(bool, bool)>) {
         None => (Verdict::Bad, None),
         Some(t) => {
             let slots = (t.slots().any(|s| *s == cp::SlotId::principal()), t.slots().any(|s| *s == cp::SlotId::resource()));
+            // trusted by the model (hypothesis TemplatesHaveSlots of assemble_inv / assemble_ids; id assignment)
+            if !slots.0 && !slots.1 { out.propfail("Template::parse/from_json accepted a slot-less policy", &format!("{d:?}"), ""); }
+            if AsRef::<str>::as_ref(t.id()) != "x" { out.propfail("Template::parse/from_json does not assign the given id", &format!("{d:?}"), &t.id().to_string()); }
             match c08::template_sx(t.as_ref()) { Some(b) => (Verdict::Good(b), Some(slots)), None => (Verdict::Outside, Some(slots)) }
         }
     }
@@ -173,7 +178,7 @@ fn uid_json(r: &mut Rng, u: &EntityUID) -> Value { crate::c19::uid_json(r, u) }
 fn one_case(cr: &mut Rng, g: &mut ExprGen, out: &mut Out) {
     let w = gen::gen_world(cr);
     let pools = gen_docs(cr, g, &w);
-    let clean = cr.chance(35);
+    let clean = cr.chance(40);
     let mut obj = Map::new();
     let mut shape = String::new();
     let mut ncomp = 0usize;
@@ -197,7 +202,9 @@ fn one_case(cr: &mut Rng, g: &mut ExprGen, out: &mut Out) {
                 };
                 parts.push(t);
             }
-            let text = parts.join(if cr.chance(50) { "\n" } else { " " });
+            let mut text = parts.join(if cr.chance(50) { "\n" } else { " " });
+            // sometimes the whole text is damaged (a missing `;`, a stray token)
+            if !clean && cr.chance(10) { text = match cr.below(3) { 0 => text.replacen(';', "", 1), 1 => format!("{text} permit"), _ => format!("when {text}") }; }
             ncomp += n;
             shape.push_str(&format!("static=text{n}"));
             obj.insert("staticPolicies".into(), Value::String(text.clone()));
@@ -210,7 +217,7 @@ fn one_case(cr: &mut Rng, g: &mut ExprGen, out: &mut Out) {
             for _ in 0..n {
                 let d = gen_doc(cr, &pools, false, clean);
                 arr.push(d.json());
-                match policy_verdict(&d) {
+                match policy_verdict(&d, out) {
                     Verdict::Bad => o.push_str(&format!(" ({} bad)", d.fmt())),
                     Verdict::Good(b) => o.push_str(&format!(" ({} {b})", d.fmt())),
                     Verdict::Outside => outside = true,
@@ -230,7 +237,7 @@ fn one_case(cr: &mut Rng, g: &mut ExprGen, out: &mut Out) {
             for id in &ids {
                 let d = gen_doc(cr, &pools, false, clean);
                 m.insert(id.clone(), d.json());
-                match policy_verdict(&d) {
+                match policy_verdict(&d, out) {
                     Verdict::Bad => o.push_str(&format!(" ({} ({} bad))", sx::qs(id), d.fmt())),
                     Verdict::Good(b) => o.push_str(&format!(" ({} ({} {b}))", sx::qs(id), d.fmt())),
                     Verdict::Outside => outside = true,
@@ -253,7 +260,7 @@ fn one_case(cr: &mut Rng, g: &mut ExprGen, out: &mut Out) {
     for id in &tids {
         let d = gen_doc(cr, &pools, true, clean);
         tm.insert(id.clone(), d.json());
-        let (v, slots) = template_verdict(&d);
+        let (v, slots) = template_verdict(&d, out);
         if let Some(s) = slots { tslots.push((id.clone(), s)); }
         match v {
             Verdict::Bad => templates_sx.push_str(&format!(" ({} ({} bad))", sx::qs(id), d.fmt())),
